@@ -621,7 +621,7 @@ class ExprMixin:
         gen = e.generators[0]
 
         def f(it, s):
-            return self.comp_over(e, gen, it, s, kind)
+            return self.comp_over(e, gen, self.unopt(s, it), s, kind)
         return self.then(self.ev(gen.iter, st), f)
 
     def comp_over(self, e, gen, it, st, kind):
